@@ -174,7 +174,7 @@ class ClassInfo:
 
 
 class Module:
-    def __init__(self, name, path, src=None, unstable=frozenset(), methods=frozenset()):
+    def __init__(self, name, path, src=None, unstable=frozenset(), methods=frozenset(), supplied=None):
         self.name, self.path = name, path
         if src is None:
             with open(path, encoding='utf-8') as fh:
@@ -186,7 +186,7 @@ class Module:
         except SyntaxError as e:
             raise AnalysisError('module %s does not parse: %s' % (path, e))
         strip_annotations(self.tree)
-        self.specialised = specialise_new_parameters(self.tree, name)
+        self.specialised = specialise_new_parameters(self.tree, name, supplied)
         self.renamed = canonicalise_private_names(self.tree, name)
         canonicalise_conditions(self.tree)
         desugar_map_filter(self.tree)
@@ -282,8 +282,10 @@ class Repo:
         self.modules = {}
         self.overrides = overrides or {}
         sources = []
+        source_names = []
         for fn in sorted(os.listdir(self.pkgdir)):
             if fn.endswith('.py'):
+                source_names.append(fn[:-3])
                 if fn[:-3] in self.overrides and self.overrides[fn[:-3]] is not None:
                     sources.append(self.overrides[fn[:-3]])
                 else:
@@ -291,15 +293,16 @@ class Repo:
                         sources.append(fh.read())
         unstable = computed_attribute_names(sources)
         methods = plain_method_names(sources)
+        supplied = supplied_arguments(sources, source_names)
         for m in MODULE_NAMES:
             p = os.path.join(self.pkgdir, m + '.py')
             if not os.path.exists(p):
                 raise AnalysisError('anchor module missing: %s' % p)
-            self.modules[m] = Module(m, p, self.overrides.get(m), unstable, methods)
+            self.modules[m] = Module(m, p, self.overrides.get(m), unstable, methods, supplied)
         # any further module in the package is loaded too (a refactor may add one)
         for fn in sorted(os.listdir(self.pkgdir)):
             if fn.endswith('.py') and fn[:-3] not in self.modules:
-                self.modules[fn[:-3]] = Module(fn[:-3], os.path.join(self.pkgdir, fn), None, unstable, methods)
+                self.modules[fn[:-3]] = Module(fn[:-3], os.path.join(self.pkgdir, fn), None, unstable, methods, supplied)
         # literals moved to module level and imported elsewhere: second propagation pass over the importers
         for m in self.modules.values():
             extra = {}
@@ -2333,7 +2336,45 @@ def fold_constant_conditions(tree):
     return changed[0]
 
 
-def specialise_new_parameters(tree, modname):
+def supplied_arguments(sources, names=None):
+    """what the calls of the whole package supply, by callee name: keyword names and the largest number of positional
+    arguments (a starred argument counts as 'any')"""
+    kws, pos = {}, {}
+    api = pinned_api()
+    for si, src in enumerate(sources):
+        try:
+            t = ast.parse(src)
+        except SyntaxError:
+            continue
+        tab = api.get(names[si], {}) if names else {}
+        # parameters that are themselves later additions (per enclosing function)
+        new_params = {}
+        for st in t.body:
+            defs = [(st.name, st)] if isinstance(st, ast.FunctionDef) else (
+                [('%s.%s' % (st.name, x.name), x) for x in st.body if isinstance(x, ast.FunctionDef)] if isinstance(st, ast.ClassDef) else [])
+            for q, f in defs:
+                old = tab.get(q)
+                if old is not None:
+                    for x in ast.walk(f):
+                        x._new_params = {a.arg for a in f.args.args + f.args.kwonlyargs if a.arg not in old}
+        for n in ast.walk(t):
+            if isinstance(n, ast.Call):
+                nm = n.func.id if isinstance(n.func, ast.Name) else (n.func.attr if isinstance(n.func, ast.Attribute) else None)
+                if nm is None:
+                    continue
+                for k in n.keywords:
+                    # `encoding=encoding` only forwards the caller's own parameter of that name: it supplies a value
+                    # other than the default only if somebody supplies one to the caller
+                    if k.arg is not None and isinstance(k.value, ast.Name) and k.value.id == k.arg \
+                            and k.arg in getattr(n, '_new_params', ()):
+                        continue
+                    kws.setdefault(nm, set()).add('**' if k.arg is None else k.arg)
+                npos = len(n.args) + (100 if any(isinstance(a, ast.Starred) for a in n.args) else 0)
+                pos[nm] = max(pos.get(nm, 0), npos)
+    return kws, pos
+
+
+def specialise_new_parameters(tree, modname, supplied=None):
     """The properties quantify over the API of the pinned commit.  A parameter that a function of that API has gained
     since (not in sa/pinned_api.json), that has a literal default (None / bool / number / string) and that no call in
     the module supplies, is a switched-off feature: inside the function it is replaced by its default, and the conditions,
@@ -2342,8 +2383,8 @@ def specialise_new_parameters(tree, modname):
     api = pinned_api().get(modname)
     if not api:
         return 0
-    # what calls in this module supply, by callee name
-    supplied_kw, max_pos = {}, {}
+    # what calls supply, by callee name: in this module, and (when given) in the whole package
+    supplied_kw, max_pos = ({k: set(v) for k, v in supplied[0].items()}, dict(supplied[1])) if supplied else ({}, {})
     for n in ast.walk(tree):
         if isinstance(n, ast.Call):
             nm = n.func.id if isinstance(n.func, ast.Name) else (n.func.attr if isinstance(n.func, ast.Attribute) else None)
@@ -2352,7 +2393,9 @@ def specialise_new_parameters(tree, modname):
             for k in n.keywords:
                 if k.arg is None:
                     supplied_kw.setdefault(nm, set()).add('**')
-                else:
+                elif supplied is None or not (isinstance(k.value, ast.Name) and k.value.id == k.arg):
+                    supplied_kw.setdefault(nm, set()).add(k.arg)
+                elif k.arg in (supplied[0].get(nm) or ()):
                     supplied_kw.setdefault(nm, set()).add(k.arg)
             npos = len(n.args) + (100 if any(isinstance(a, ast.Starred) for a in n.args) else 0)
             max_pos[nm] = max(max_pos.get(nm, 0), npos)
